@@ -50,40 +50,8 @@ mod verif_c14_bitset {
         kani::cover!(v1 / 512 > v2 / 512);
         kani::cover!(v1 / 512 == v2 / 512 && v1 != v2);
     }
-    //@harness unit=U14.2r fns=BitSet::iter_ranges,BitSetRangeIter::next,BitSetRangeIter::next_range,BitSetRangeIter::move_to_next_page,BitPage::iter_ranges timeout=1800 bound="two stored pages (majors 0 and 1 or 2), one member each at the first / last offset (incl. a run ending at a page edge followed by an absent page)" note="iter_ranges yields exactly the maximal runs of members, ascending: ranges merge across a page boundary only when the values are numerically adjacent"
-    #[kani::proof]
-    #[kani::unwind(12)]
-    fn bitset_iter_ranges_two_members() {
-        // two stored pages built directly (page 0 and page 1 or 2, well-formed map), one member each at the first or last offset of
-        // its page: the in-page scan is the page layer's business (U14.1); what BitSetRangeIter adds is the merging of a run that
-        // ends at a page edge with the first run of the NEXT STORED page. (Sets built through insert() did not finish in 1800 s.)
-        let off0: u32 = if kani::any() { 511 } else { 0 };
-        let off1: u32 = if kani::any() { 511 } else { 0 };
-        let m1: u32 = if kani::any() { 1 } else { 2 };
-        let mut p0 = BitPage::new_zeroes();
-        p0.insert(off0);
-        let mut p1 = BitPage::new_zeroes();
-        p1.insert(off1);
-        let s = BitSet {
-            pages: vec![p0, p1],
-            page_map: vec![PageInfo { index: 0, major_value: 0 }, PageInfo { index: 1, major_value: m1 }],
-            length: 2,
-        };
-        assert!(wf(&s));
-        let (lo, hi) = (off0, m1 * 512 + off1);
-        let mut it = s.iter_ranges();
-        let r1 = it.next();
-        let r2 = it.next();
-        let r3 = it.next();
-        if lo + 1 == hi {
-            assert!(r1 == Some(lo..=hi) && r2.is_none());
-        } else {
-            assert!(r1 == Some(lo..=lo) && r2 == Some(hi..=hi) && r3.is_none());
-        }
-        kani::cover!(lo == 511 && hi == 512);
-        kani::cover!(lo == 511 && hi == 1024);
-        kani::cover!(lo == 0 && hi == 1535);
-    }
+    // NOTE: a harness for BitSet::iter_ranges / BitSetRangeIter (two stored pages, members at page edges) exhausted 16 GB in CBMC,
+    // also with the set built as a struct literal; kept, unclaimed, in attic/c14_bitset_iter_ranges.proofs.rs.txt (seed C14-4 stays missed).
     // NOTE: harnesses for BitSet::{intersect, union, subtract, reversed_subtract} through the in-place page merge
     // `process` (two operands of two members each) exhausted CBMC's memory (> 16 GB, also with concrete page shapes) and
     // were removed: the page merge stays an ASSUMED contract in the IntSet proof (unit U14.3). Its compaction step is
